@@ -117,9 +117,32 @@ func checkC07(res *Result) {
 		}
 		ff := computeFacts(fn)
 		cls, n := findClassifier(fn, ep.classifier)
-		if cls == nil || n != 1 {
+		// the classifier written out in the entry point: (r.Method == M) && headerIsActivityPubMediaType(r.Header.Get(H))
+		var inlineMedia *ssa.Call
+		inlineMethod := ""
+		if cls == nil && !p.HasFunc(ep.classifier) {
+			method, header := "POST", "Content-Type"
+			if ep.classifier == "isActivityPubGet" {
+				method, header = "GET", "Accept"
+			}
+			for _, ci := range callsIn(fn) {
+				if f := ci.Common().StaticCallee(); f != nil && f.Name() == "headerIsActivityPubMediaType" {
+					if c, ok := ci.(*ssa.Call); ok && mediaHeaderIs(c, header) {
+						inlineMedia = c
+						inlineMethod = method
+					}
+				}
+			}
+		}
+		if inlineMedia == nil && (cls == nil || n != 1) {
 			res.bad("C07-R1", ep.name, p.pos(fn), "classifier "+ep.classifier+" called exactly once", fmt.Sprintf("found %d calls", n))
 			continue
+		}
+		classified := func(ins ssa.Instruction) bool {
+			if inlineMedia != nil {
+				return ff.has(ins, inlineMedia, fTRUE, "") && ff.hasName(ins, "param:r->Method", fEQ, "const:"+inlineMethod)
+			}
+			return ff.has(ins, cls, fTRUE, "")
 		}
 		var flagV ssa.Value
 		if ep.flag != "" {
@@ -146,7 +169,14 @@ func checkC07(res *Result) {
 			}
 		}
 		for _, ci := range E.byFn[fn] {
-			if ci.Instr == ssa.CallInstruction(cls) {
+			if cls != nil && ci.Instr == ssa.CallInstruction(cls) {
+				continue
+			}
+			if inlineMedia != nil && (ci.Instr == ssa.CallInstruction(inlineMedia) || ssa.Value(asCall(ci.Instr)) == inlineMedia.Call.Args[0]) {
+				// the classification itself: the media-type test is evaluated where the method matched
+				if ci.Instr == ssa.CallInstruction(inlineMedia) {
+					res.check(ff.hasName(ci.Instr, "param:r->Method", fEQ, "const:"+inlineMethod), "C07-R6", ep.name, p.pos(ci.Instr), "media-type test evaluated only where r.Method == \""+inlineMethod+"\"", "facts: "+ff.describe(ci.Instr))
+				}
 				continue
 			}
 			if !ff.reachable(ci.Instr) {
@@ -155,7 +185,7 @@ func checkC07(res *Result) {
 			what := fmt.Sprintf("%s [%s]", ci.Label, ci.Trans)
 			pos := p.pos(ci.Instr)
 			// R1
-			res.check(ff.has(ci.Instr, cls, fTRUE, ""), "C07-R1", ep.name, pos, what+" only after "+ep.classifier+"(r)==true",
+			res.check(classified(ci.Instr), "C07-R1", ep.name, pos, what+" only after "+ep.classifier+"(r)==true",
 				"facts here: "+ff.describe(ci.Instr))
 			// R2
 			if flagV != nil && (ci.Trans&(eGATE|eHOOK|eSIDE) != 0) {
@@ -281,7 +311,30 @@ func checkPureForward(res *Result, p *Pub, E *Effects, rule, from, to string) {
 	res.check(n == 1 && okShape && len(fn.Blocks) == 1, rule, from, p.pos(fn), from+" is a pure forward to "+to, fmt.Sprintf("calls to target: %d, other effects: %v, blocks: %d", n, !okShape, len(fn.Blocks)))
 }
 
+// mediaHeaderIs: the argument of headerIsActivityPubMediaType is r.Header.Get(<header>).
+func mediaHeaderIs(media *ssa.Call, header string) bool {
+	if c, ok := media.Call.Args[0].(*ssa.Call); ok && staticName(c) == "(http.Header).Get" && len(c.Call.Args) == 2 {
+		if s, ok := stringConst(c.Call.Args[1]); ok && s == header {
+			if base, ok := loadOfField(c.Call.Args[0], "Header"); ok {
+				_, isP := base.(*ssa.Parameter)
+				return isP
+			}
+		}
+	}
+	return false
+}
+
+func asCall(ci ssa.CallInstruction) *ssa.Call {
+	c, _ := ci.(*ssa.Call)
+	return c
+}
+
 func checkClassifier(res *Result, p *Pub, name, method, header string) {
+	if !p.HasFunc(name) {
+		// written out in the entry points (checked there by C07-R1/R6)
+		res.ok("C07-R6", name, "-", name+" is written out in its callers: the method and media-type tests are checked at each entry point")
+		return
+	}
 	fn := p.MustFunc(res, "C07-R6", name)
 	if fn == nil {
 		return
